@@ -196,6 +196,16 @@ def m_abs(ex, fr, st, args, ins):
     return FReal(z3.If(rx < 0, -rx, rx))
 
 
+def m_isnan(ex, fr, st, args, ins):
+    x = force(args[0])
+    if isinstance(x, float):
+        return math.isnan(x)
+    if isinstance(x, FFP):
+        return z3.fpIsNaN(x.t)
+    # real domain: NaN can only come from 0/0, inf-inf, sqrt/log of a negative: those are separate obligations (fdiv0, fdomain)
+    return False
+
+
 def m_min(ex, fr, st, args, ins):
     a, b = args
     c = f_cmp(ex.fc, '<', a, b)
@@ -336,7 +346,7 @@ def err_error(ex, fr, st, args, ins):
 
 
 MATH = {
-    'math.Sqrt': m_sqrt, 'math.Abs': m_abs, 'math.Erfc': uf1('erfc'), 'math.Erf': uf1('erf'),
+    'math.IsNaN': m_isnan, 'math.Sqrt': m_sqrt, 'math.Abs': m_abs, 'math.Erfc': uf1('erfc'), 'math.Erf': uf1('erf'),
     'math.Exp': uf1('exp'), 'math.Log': m_log, 'math.Pow': m_pow, 'math.Min': m_min, 'math.Max': m_max,
     'math.Ceil': m_ceil, 'math.Floor': m_floor, 'math.Sincos': m_sincos, 'math/cmplx.Abs': m_cabs,
     'math/bits.OnesCount8': onescount8,
